@@ -253,3 +253,69 @@ func argsGen(source string) func(t *rapid.T, sel int) []byte {
 		return []byte(strings.Join(args, "\n"))
 	}
 }
+
+// ---- identifiers made of long runs of initialisms ------------------------------
+//
+// An all-caps identifier that is a run of 10..40 golint initialisms followed by
+// a short non-initialism tail makes the initialism splitter backtrack; the
+// splitter must stay (near-)linear on it.
+
+var runInitialisms = []string{"ID", "UID", "UI", "HTTP", "HTTPS", "API", "URL", "UUID", "IP", "DNS", "SSH", "TLS", "TTL", "XSS", "XSRF", "UTF8", "VM", "QPS", "CPU", "EOF"}
+
+func initialismRun(k int, same bool, pick func(i int) string) string {
+	var b strings.Builder
+	first := pick(0)
+	for i := 0; i < k; i++ {
+		if same {
+			b.WriteString(first)
+		} else {
+			b.WriteString(pick(i))
+		}
+	}
+	return b.String()
+}
+
+func drawIdent(t *rapid.T) []byte {
+	if rapid.IntRange(0, 3).Draw(t, "ident_plain") == 0 {
+		return []byte(rapid.SampledFrom(seedsCase).Draw(t, "ident_seed").data)
+	}
+	k := rapid.IntRange(10, 40).Draw(t, "run_k")
+	same := rapid.Bool().Draw(t, "run_same")
+	run := initialismRun(k, same, func(i int) string { return rapid.SampledFrom(runInitialisms).Draw(t, "run_init") })
+	tail := rapid.SampledFrom([]string{"X", "Q", "Zz", "", "X", "Q", "QX", "x", "9"}).Draw(t, "run_tail")
+	id := run + tail
+	switch rapid.IntRange(0, 7).Draw(t, "run_ctx") {
+	case 0:
+		id = "foo" + id
+	case 1:
+		id = "Foo" + id
+	case 2:
+		id = "a_" + id
+	case 3:
+		id = "a-" + id
+	case 4:
+		id = id + "_b"
+	case 5:
+		id = "Port" + id + "Max"
+	}
+	if rapid.IntRange(0, 9).Draw(t, "run_lower") == 0 {
+		id = strings.ToLower(id)
+	}
+	return []byte(id)
+}
+
+func identGen(t *rapid.T, sel int) []byte { return drawIdent(t) }
+
+// sourceGen draws argument vectors / values for the fixed-type selectors and
+// identifiers for the input-named selectors (dyn lists those).
+func sourceGen(fixed func(t *rapid.T, sel int) []byte, dyn map[int]bool, nsel int) func(t *rapid.T, sel int) []byte {
+	return func(t *rapid.T, sel int) []byte {
+		if dyn[sel%nsel] {
+			return drawIdent(t)
+		}
+		if fixed != nil {
+			return fixed(t, sel)
+		}
+		return []byte(rapid.SampledFrom(seedsEnvValues).Draw(t, "envval"))
+	}
+}
